@@ -1006,7 +1006,7 @@ func c02(c *Ctx) {
 
 	c.Rule("C02.R9", "a metric taken from the pool starts from the initial state: a recycled metric is fully reset before the lexer fills it (the lexer appends to the metric's own tag buffer and leaves fields it does not parse alone, so anything left over becomes part of the next line's result) - C05.R6's pool obligations, shared", 3, func(r *Rule) {
 		importObligations(c, r, c05, "C05.R6", func(k string) bool {
-			return strings.HasPrefix(k, "Metric.Reset:") || strings.HasPrefix(k, "MetricPool.Get:")
+			return strings.HasPrefix(k, "Metric.Reset:") || strings.HasPrefix(k, "MetricPool.")
 		})
 	})
 
